@@ -367,6 +367,7 @@ def cycle_update_rules(ctx):
     neighbour_wiring(ctx, "R3")
     three_opt_reconnection(ctx, "R3")
     counter_plain_sum(ctx, common.sites_of(ctx, TRANSITION))
+    common.bookkeeping_sees_new_maps(ctx, "R3", common.sites_of(ctx, SCHEDULE))
 
 
 def rules(ctx):
